@@ -336,3 +336,166 @@ Lemma subscription_gap : exists c, unsubscribed_reads c (impl_deps c) (domain c)
 Proof.
   exists gap_ctx. vm_compute. discriminate.
 Qed.
+
+(* ---------- termination, closedness, duplicate-freedom ---------- *)
+From Coq Require Import PeanoNat.
+Lemma NoDup_app_disj : forall (a l : list N),
+  NoDup a -> NoDup l -> (forall x, In x a -> ~ In x l) -> NoDup (a ++ l).
+Proof.
+  induction a as [|y a IH]; intros l Ha Hl Hd; cbn [app]; auto.
+  inversion Ha; subst. constructor.
+  - intro H. apply in_app_iff in H. destruct H as [H|H]; [contradiction|].
+    apply (Hd y); [left; auto | auto].
+  - apply IH; auto. intros x Hx. apply Hd. right; auto.
+Qed.
+
+Lemma NoDup_app_fresh : forall a b, NoDup a -> NoDup (a ++ fresh a b).
+Proof.
+  intros a b Ha. apply NoDup_app_disj; auto.
+  - unfold fresh. apply NoDup_nodup.
+  - intros x Hx Hf. apply fresh_In in Hf. destruct Hf as [_ Hn]. contradiction.
+Qed.
+
+Fixpoint mu (u : nat) (st : sets) (Dl : list N) : nat :=
+  match Dl with
+  | [] => O
+  | x :: t => ((u - length (st x)) + mu u st t)%nat
+  end.
+
+Lemma mu_le : forall u st Dl, (mu u st Dl <= length Dl * u)%nat.
+Proof.
+  induction Dl as [|x t IH]; cbn [mu length]; [lia|].
+  change (S (length t) * u)%nat with (u + length t * u)%nat. lia.
+Qed.
+
+Lemma mu_mono : forall u (st st' : sets) Dl,
+  (forall x, (length (st x) <= length (st' x))%nat) -> (mu u st' Dl <= mu u st Dl)%nat.
+Proof.
+  intros u st st' Dl H. induction Dl as [|x t IH]; cbn [mu]; [lia|].
+  specialize (H x). lia.
+Qed.
+
+Lemma mu_dec : forall u (st st' : sets) Dl n,
+  (forall x, (length (st x) <= length (st' x))%nat) ->
+  In n Dl -> (length (st n) < length (st' n))%nat -> (length (st' n) <= u)%nat ->
+  (mu u st' Dl + 1 <= mu u st Dl)%nat.
+Proof.
+  intros u st st' Dl n H. induction Dl as [|x t IH]; intros Hin Hlt Hle; [destruct Hin|].
+  cbn [mu]. destruct (N.eq_dec x n) as [->|Hne].
+  - pose proof (mu_mono u st st' t H). lia.
+  - destruct Hin as [Hx|Hin]; [contradiction|].
+    specialize (IH Hin Hlt Hle). specialize (H x). lia.
+Qed.
+
+Lemma run_terminates_gen : forall c deps (Dl U : list N) (k : nat),
+  (forall n x, In x (deps n) -> In x Dl) ->
+  (forall n, (length (deps n) <= k)%nat) ->
+  (forall s n, In n Dl -> (forall m, incl (s m) U) -> incl (F c s n) U) ->
+  forall fuel wl st,
+  (forall x, In x wl -> In x Dl) ->
+  (forall n, NoDup (st n) /\ incl (st n) U) ->
+  (length wl + mu (length U) st Dl * (k + 1) <= fuel)%nat ->
+  exists r, run fuel c deps wl st = Some r.
+Proof.
+  intros c deps Dl U k Hdeps Hk HF.
+  induction fuel as [|f IH]; intros wl st Hwl Hinv Hb.
+  - destruct wl as [|n rest]; [exists st; reflexivity|]. cbn [length] in Hb. lia.
+  - destruct wl as [|n rest]; [exists st; reflexivity|]. cbn [run].
+    destruct (fresh (st n) (F c st n)) as [|a add] eqn:Hf.
+    + apply IH; auto.
+      * intros x Hx. apply Hwl. right; auto.
+      * cbn [length] in Hb. lia.
+    + assert (HnD : In n Dl) by (apply Hwl; left; auto).
+      assert (Hinv' : forall m, NoDup (upds st n (st n ++ a :: add) m) /\
+                                incl (upds st n (st n ++ a :: add) m) U).
+      { intros m. unfold upds. destruct (m =? n) eqn:E; [|apply Hinv].
+        rewrite <- Hf. split.
+        - apply NoDup_app_fresh. apply Hinv.
+        - apply incl_app; [apply Hinv|].
+          intros x Hx. apply fresh_In in Hx. destruct Hx as [Hx _].
+          apply (HF st n HnD); auto. intros m0. apply Hinv. }
+      assert (Hmu : (mu (length U) (upds st n (st n ++ a :: add)) Dl + 1
+                     <= mu (length U) st Dl)%nat).
+      { apply mu_dec with (n := n); auto.
+        - intros x. unfold upds. destruct (x =? n) eqn:E; [|lia].
+          apply N.eqb_eq in E. subst x. rewrite app_length. lia.
+        - unfold upds. rewrite N.eqb_refl. rewrite app_length. cbn [length]. lia.
+        - apply NoDup_incl_length; apply Hinv'. }
+      apply IH; auto.
+      * intros x Hx. apply in_app_iff in Hx. destruct Hx as [Hx|Hx].
+        -- apply (Hdeps n). apply in_rev. exact Hx.
+        -- apply Hwl. right; auto.
+      * rewrite app_length, rev_length. cbn [length] in Hb.
+        specialize (Hk n).
+        set (m' := mu (length U) (upds st n (st n ++ a :: add)) Dl) in *.
+        set (m0 := mu (length U) st Dl) in *.
+        assert (Hm : ((m' + 1) * (k + 1) <= m0 * (k + 1))%nat)
+          by (apply Nat.mul_le_mono_r; exact Hmu).
+        lia.
+Qed.
+
+Lemma run_terminates : forall c deps (Dl U : list N) (k : nat) wl st fuel,
+  (forall x, In x wl -> In x Dl) -> (forall n x, In x (deps n) -> In x Dl) ->
+  (forall n, (length (deps n) <= k)%nat) ->
+  (forall n, NoDup (st n) /\ incl (st n) U) ->
+  (forall s n, In n Dl -> (forall m, incl (s m) U) -> incl (F c s n) U) ->
+  (length wl + length Dl * length U * (k + 1) <= fuel)%nat ->
+  exists r, run fuel c deps wl st = Some r.
+Proof.
+  intros c deps Dl U k wl st fuel Hwl Hdeps Hk Hinv HF Hb.
+  apply (run_terminates_gen c deps Dl U k Hdeps Hk HF); auto.
+  pose proof (mu_le (length U) st Dl) as Hm.
+  assert (Hm2 : (mu (length U) st Dl * (k + 1) <= length Dl * length U * (k + 1))%nat)
+    by (apply Nat.mul_le_mono_r; exact Hm).
+  lia.
+Qed.
+
+Lemma F_join_closed : forall c (s : sets) n (U : list N),
+  (forall m, incl (s m) U) -> incl (F_join c s n) U.
+Proof.
+  intros c s n U H x Hx. unfold F_join in Hx. apply in_flat_map in Hx.
+  destruct Hx as [r [_ Hx]]. apply (H r). exact Hx.
+Qed.
+
+Lemma F_blk_closed : forall c (s : sets) n args (U : list N),
+  (forall m, incl (s m) U) -> incl (F_blk c s n args) U.
+Proof.
+  intros c s n args U H x Hx. unfold F_blk in Hx. apply in_flat_map in Hx.
+  destruct Hx as [a [_ Hx]]. cbv zeta in Hx.
+  destruct (res c a =? n); [destruct Hx|]. apply (H (res c a)). exact Hx.
+Qed.
+
+Lemma F_inst_closed : forall c (s : sets) n def args (U : list N),
+  (forall m, incl (s m) U) -> incl (F_inst c s n def args) U.
+Proof.
+  intros c s n def args U H x Hx. unfold F_inst in Hx.
+  destruct (def =? n); [destruct Hx|]. apply in_flat_map in Hx.
+  destruct Hx as [ap [_ Hx]]. cbv zeta in Hx.
+  destruct (mem (snd ap) (s def)); [|destruct Hx].
+  destruct (res c (fst ap) =? n); [destruct Hx|]. apply (H (res c (fst ap))). exact Hx.
+Qed.
+
+Lemma F_closed_typeparams : forall c (Dl U : list N),
+  (forall n, In n Dl -> kind_of (cg c) n = Some KTypeParam -> In n U) ->
+  forall s n, In n Dl -> (forall m, incl (s m) U) -> incl (F c s n) U.
+Proof.
+  intros c Dl U HT s n Hn Hs. unfold F.
+  destruct (kind_of (cg c) n) as [k|] eqn:K; [destruct k|];
+    try (apply F_join_closed; exact Hs).
+  - intros x [<-|[]]. apply HT; auto.
+  - destruct (mem def (c_allow c)); [apply F_inst_closed | apply F_blk_closed]; exact Hs.
+Qed.
+
+Lemma run_nodup : forall fuel c deps wl st r,
+  run fuel c deps wl st = Some r -> (forall n, NoDup (st n)) -> forall n, NoDup (r n).
+Proof.
+  induction fuel as [|f IH]; intros c deps wl st r Hrun Hnd.
+  - destruct wl; cbn [run] in Hrun; [|discriminate]. inversion Hrun; subst; auto.
+  - destruct wl as [|n rest]; cbn [run] in Hrun.
+    + inversion Hrun; subst; auto.
+    + destruct (fresh (st n) (F c st n)) as [|a add] eqn:Hf.
+      * eapply IH; eauto.
+      * eapply IH; [exact Hrun|]. intros m. unfold upds.
+        destruct (m =? n) eqn:E; [|apply Hnd].
+        rewrite <- Hf. apply NoDup_app_fresh. apply Hnd.
+Qed.
